@@ -45,6 +45,8 @@ def main(argv):
         repo = Repo()
         from sa import absint as _absint
         _absint.REPO = repo
+        from sa import pm as _pm
+        _pm.SIGNATURES = repo.signatures()
         ctx = report.Ctx(prop, tier, repo)
         mod = importlib.import_module('sa.rules.%s' % prop.lower())
         explanation = mod.run(ctx)
